@@ -134,6 +134,16 @@ def rerun(ids, tier):
             res["dir"] = sid
             show(res)
             rows.append(res)
+            if "checks" in res:
+                meta["checks_run"] = {p: {"tier": tier, "caught": c["caught"],
+                                          "first_violation": (c["first"] or [None])[0]}
+                                      for p, c in res["checks"].items()}
+                meta["confirmed"]["rerun_at_repo_head"] = res["repo_head"]
+                meta["confirmed"]["demo_clean_exit"] = res["demo_clean_exit"]
+                meta["confirmed"]["demo_patched_exit"] = res["demo_patched_exit"]
+                meta["confirmed"]["pytest_with_change"] = res["pytest"]
+                with open(os.path.join(src, "meta.json"), "w") as f:
+                    json.dump(meta, f, indent=1)
         finally:
             shutil.rmtree(tmp, ignore_errors=True)
     return rows
